@@ -1,4 +1,5 @@
 import Proofs.Superimpose
+import Proofs.SuperimposeLifetime
 /-!
 C15 — syntax highlighting only recolours foregrounds, by the file's language.
 
@@ -290,5 +291,87 @@ theorem language_ignores_directory {σ : Type} (byExt : List Char → Option σ)
   rw [fileName_dir dir₁ name hs h1 h2, fileName_dir dir₂ name hs h1 h2]
 
 example : '/' ∉ "main.rs".toList ∧ "main.rs".toList ≠ [] ∧ "main.rs".toList ≠ ['.'] := by decide
+
+end C15
+
+
+/-! ### The language in force when something is painted -/
+namespace C15
+open Superimpose Superimpose.Lifetime Generated.SuperimposeLifetime
+
+/-- The language of a file section: that of the new name, or of the old name for a deleted file. -/
+def fileLang {σ : Type} (lang : Option (List Char) → σ) (minus plus : Option (List Char)) : σ :=
+  if plus.isSome then lang plus else lang minus
+
+/-- `Painter::new` satisfies the invariant, so every reachable state does (`step_inv`). -/
+theorem initial_state_inv {σ : Type} (lang : Option (List Char) → σ) :
+    Lifetime.Inv .start (initial lang) := by
+  simp [Lifetime.Inv, initial, Consec]
+
+/-- Along any well-formed event sequence, from any state in which the buffered lines are
+consistent with the highlighter, every painted element (hunk-header fragment, hunk line) goes
+through exactly the highlighter the property asks for: created for the language of the
+current file's name; fresh for a fragment; fed with the preceding lines of the same hunk, and
+nothing else, for a hunk line. (Breaks when a generated statement sequence loses or guards a
+`set_syntax` / `set_highlighter`.) -/
+theorem highlighter_follows_current_file {σ : Type} (lang : Option (List Char) → σ)
+    (ph : Phase) (s : State σ) (evs : List Event) (hi : Lifetime.Inv ph s) (hw : wf ph evs = true) :
+    ∀ p ∈ (run lang s evs).2, p.used = some p.expected :=
+  run_inv lang evs ph s hi hw
+
+/-- **Whatever preceded** (`s`: any state satisfying the invariant, i.e. any history), the
+elements painted for a file section `--- m` / `+++ p` / hunks… use the language of that
+file's name, and each hunk-header fragment a fresh highlighter. -/
+theorem language_depends_on_current_file_only {σ : Type} (lang : Option (List Char) → σ)
+    (s : State σ) (hs : Lifetime.Inv .start s) (m p : Option (List Char)) (body : List Event)
+    (hnf : ∀ e ∈ body, isFileEvent e = false) (hw : wf .header body = true) :
+    ∀ q ∈ (run lang (run lang s [.fileMinus m, .filePlus p]).1 body).2,
+      ∃ n, q.used = some (fileLang lang m p, n) ∧ (q.kind = .fragment → n = 0) := by
+  have hm : minusHeaderStmts = [(.always, .setSyntax .minus), (.always, .paintBuffered)] := by decide
+  have hp : plusHeaderStmts = [(.ifPlusNotDevNull, .setSyntax .plus), (.always, .paintBuffered)] := by
+    decide
+  obtain ⟨_, i1⟩ := step_inv lang .start s (.fileMinus m) hs rfl
+  obtain ⟨_, i2⟩ := step_inv lang .header _ (.filePlus p) i1 (by simp [allowed])
+  have hs1 : (run lang s [.fileMinus m, .filePlus p]).1 =
+      (step lang (step lang s (.fileMinus m)).1 (.filePlus p)).1 := by simp [run]
+  have hcur : (run lang s [.fileMinus m, .filePlus p]).1.cur = fileLang lang m p := by
+    rw [hs1]
+    cases p <;> simp [step, hm, hp, execStmts, evalGuard, execStmt, fileLang]
+  have hbuf : (run lang s [.fileMinus m, .filePlus p]).1.buffered = [] := by
+    rw [hs1]
+    cases p <;> simp [step, hm, hp, execStmts, evalGuard, execStmt]
+  intro q hq
+  have hok := run_inv lang body .header _ (by rw [hs1]; exact i2) hw q hq
+  obtain ⟨e1, e2⟩ := expected_is_cur lang body _ (fileLang lang m p) hcur
+    (by rw [hbuf]; intro e he; cases he) hnf q hq
+  refine ⟨q.expected.2, ?_, e2⟩
+  rw [hok, ← e1]
+
+/-- The places that set the syntax or re-create the highlighter are exactly the known ones
+(the three modelled handlers for diffs; grep, blame, `git show` and `--show-colors` have their own). -/
+theorem highlighter_sites_inventory :
+    callSites.map (fun x => (x.1, x.2.1)) =
+      [("src/handlers/blame.rs", "set_highlighter"), ("src/handlers/blame.rs", "set_syntax"),
+       ("src/handlers/diff_header.rs", "set_syntax"),
+       ("src/handlers/git_show_file.rs", "set_highlighter"), ("src/handlers/git_show_file.rs", "set_syntax"),
+       ("src/handlers/grep.rs", "set_highlighter"), ("src/handlers/grep.rs", "set_syntax"),
+       ("src/handlers/hunk_header.rs", "set_highlighter"), ("src/paint.rs", "highlighter="),
+       ("src/subcommands/show_colors.rs", "set_highlighter"), ("src/subcommands/show_colors.rs", "set_syntax")] := by
+  decide
+
+/-- A `.txt` section with an unfinished hunk, then a `.rs` section: the Rust fragment and lines
+are painted by a fresh Rust highlighter; the leftover `.txt` lines by the `.txt` one. -/
+example :
+    let lang : Option (List Char) → String := fun n =>
+      if n = some "a.rs".toList then "Rust" else "Plain Text"
+    ((run lang (initial lang)
+        [.fileMinus (some "n.txt".toList), .filePlus (some "n.txt".toList), .hunkHeader,
+         .contextLine, .changedLine false, .changedLine false,
+         .fileMinus (some "a.rs".toList), .filePlus (some "a.rs".toList), .hunkHeader,
+         .contextLine, .changedLine false, .flush]).2.map fun q => (q.kind, q.used)) =
+    [(.fragment, some ("Plain Text", 0)), (.line, some ("Plain Text", 0)),
+     (.line, some ("Plain Text", 1)), (.line, some ("Plain Text", 2)),
+     (.fragment, some ("Rust", 0)), (.line, some ("Rust", 0)), (.line, some ("Rust", 1))] := by
+  decide
 
 end C15
